@@ -311,6 +311,48 @@ pub fn run_check(replay: Option<Value>) -> i32 {
             }
         }
     }
+    // long runs (2500 steps at a pinned max_step): whatever DOPRI5/DOP853 do only every 1000th accepted step
+    // (their stiffness test) must leave that step's interpolant alone
+    for m in [Method::DOPRI5, Method::DOP853, Method::RK23, Method::RADAU, Method::BDF] {
+        for backward in [false, true] {
+            let p0 = &sprobs[0].0;
+            let pr = if backward { reflect(p0) } else { p0.clone() };
+            let xend = if backward { -5.0 } else { 5.0 };
+            let mut c = Cfg::new(m, 0.0, xend, &pr.y0).tol(1e-7, 1e-9);
+            c.dense = true;
+            c.user_jac = true;
+            c.max_step = Some(5.0 / 2500.0);
+            let r = run(&pr, &c);
+            rep.evaluations += 1;
+            rep.transitions += r.st.n_ode;
+            let key = format!("longdense:{}:{}", mname(m), backward as u8);
+            match r.sol() {
+                Some(s) if s.status == Status::Success && s.naccpt >= 2400 => {
+                    let errof = |t: f64, v: &[f64]| -> f64 {
+                        let ex = pr.exact(0.0, &pr.y0, t).unwrap();
+                        v.iter().zip(&ex).fold(0.0f64, |a, (u, w)| a.max((u - w).abs()))
+                    };
+                    let worst_end = s.t.iter().zip(&s.y).fold(0.0f64, |a, (t, y)| a.max(errof(*t, y)));
+                    let mut worst: (f64, usize) = (0.0, 0);
+                    for k in 0..s.t.len() - 1 {
+                        for th in [0.3, 0.7] {
+                            let t = s.t[k] + th * (s.t[k + 1] - s.t[k]);
+                            let e = s.sol(t).map(|v| errof(t, &v)).unwrap_or(f64::INFINITY);
+                            if e > worst.0 {
+                                worst = (e, k);
+                            }
+                        }
+                    }
+                    rep.validated += 1;
+                    *rep.tags.entry("long-dense-run".into()).or_insert(0) += 1;
+                    if !(worst.0 <= 20.0 * worst_end + 50.0 * 1e-7) {
+                        rep.violations.push(Violation::new(&key, "sol-interior", format!("{}{}: in a run of {} steps the worst sol(t) error inside a step is {:e} (step {}), the worst endpoint error {:e}", mname(m), if backward { " backward" } else { "" }, s.naccpt, worst.0, worst.1, worst_end), json!({"key": key})).with("method", mname(m)).with("api", "sol(long run)"));
+                    }
+                }
+                _ => rep.machinery_errors.push(format!("long dense run: {} ended with {}", mname(m), r.outcome_name())),
+            }
+        }
+    }
     // low-level API: the interpolant a callback obtains by asking for output inside the next step (XOut)
     // from a solver built with dense_output(false) is the same interpolant a dense_output(true) solver
     // hands out at every step (forward runs: XOut is a point ahead in the direction of increasing x)
@@ -325,11 +367,15 @@ pub fn run_check(replay: Option<Value>) -> i32 {
             let a = run_lowlevel(p0, &c, &[], &thetas, None, false);
             let mut cb = c.clone();
             cb.low_dense = Some(false);
-            let script: Vec<(usize, Ans)> = (0..a.recs.len() + 2).map(|k| (k, Ans::XOut(-1.0))).collect();
+          // the requested output point: far behind (always passed), or exactly the end of the next step
+          for variant in 0..2usize {
+            let script: Vec<(usize, Ans)> = (0..a.recs.len() + 2)
+                .map(|k| (k, Ans::XOut(if variant == 0 { -1.0 } else { a.recs.get(k + 1).map(|q| q.x).unwrap_or(*span) })))
+                .collect();
             let b = run_lowlevel(p0, &cb, &script, &thetas, None, false);
             rep.evaluations += 2;
             rep.transitions += a.st.n_ode + b.st.n_ode;
-            let key = format!("xout:{}:{}", mname(m), pi);
+            let key = format!("xout:{}:{}:{}", mname(m), pi, variant);
             let mut bad: Option<String> = None;
             if a.ok().is_none() || b.ok().is_none() || a.recs.len() != b.recs.len() || a.recs.len() < 3 {
                 bad = Some(format!("runs ended with {} ({} callbacks) / {} ({} callbacks)", a.outcome_name(), a.recs.len(), b.outcome_name(), b.recs.len()));
@@ -354,8 +400,9 @@ pub fn run_check(replay: Option<Value>) -> i32 {
             }
             *rep.tags.entry("xout-vs-dense".into()).or_insert(0) += 1;
             if let Some(msg) = bad {
-                rep.violations.push(Violation::new(&key, "xout-interpolant", format!("{} on {}: {}", mname(m), p0.name, msg), json!({"key": key})).with("method", mname(m)));
+                rep.violations.push(Violation::new(&key, "xout-interpolant", format!("{} on {} (output requested {}): {}", mname(m), p0.name, if variant == 0 { "at a point already passed" } else { "exactly at the end of the next step" }, msg), json!({"key": key})).with("method", mname(m)));
             }
+          }
         }
     }
     if let Some(case) = replay {
